@@ -335,7 +335,7 @@ func (c14) w4(sc core.Scenario, r *core.R) {
 // writer stays busy for several seconds; a second call completes meanwhile and its response has to wait
 // for the writer. Both responses must arrive whole, and nothing else may appear on the wire.
 func (c14) slowPeer(sc core.Scenario, r *core.R) {
-	// keepalive runs at a high rate in both directions: ping ticks and pongs queue up behind the busy writer
+	// keepalive runs in both directions: server ping ticks queue up behind the busy writer; a client ping arrives every 2 s (each costs the server's reader up to a second while the pong waits for the write slot, so a higher rate would delay the second request itself)
 	env := NewEnv(EnvOpt{ServerOpts: []jsonrpc.ServerOption{jsonrpc.WithServerPingInterval(100 * time.Millisecond)}})
 	defer env.Shutdown()
 	pol := noisePolicy(sc)
@@ -348,7 +348,7 @@ func (c14) slowPeer(sc core.Scenario, r *core.R) {
 		}
 	}})
 	defer pol.Install()()
-	cl, err := env.NewClient(ClientOpt{Opts: []jsonrpc.Option{jsonrpc.WithNoReconnect(), jsonrpc.WithPingInterval(200 * time.Millisecond)}})
+	cl, err := env.NewClient(ClientOpt{Opts: []jsonrpc.Option{jsonrpc.WithNoReconnect(), jsonrpc.WithPingInterval(2 * time.Second)}})
 	if err != nil {
 		r.Inconclusive("client: %v", err)
 		return
@@ -392,7 +392,12 @@ func (c14) slowPeer(sc core.Scenario, r *core.R) {
 	r.Key("slowpeer", waited > 2*time.Second)
 	r.Obs("slow_writer_seconds", int64(waited/time.Second))
 	r.Sig(core.Log.Signature())
-	r.Sample(map[string]interface{}{"scenario": "second response queued behind a writer busy with a large response to a slow reader", "mb": sc.I("mb"), "second_response_waited_ms": waited.Milliseconds()})
+	smallMs := int64(-1)
+	if small.Returned() {
+		smallMs = small.T1.Sub(start).Milliseconds()
+	}
+	r.Obs("second_response_waited_ms", smallMs)
+	r.Sample(map[string]interface{}{"scenario": "second response queued behind a writer busy with a large response to a slow reader", "mb": sc.I("mb"), "large_response_took_ms": waited.Milliseconds(), "second_response_waited_ms": smallMs, "dbg": core.Log.TailFiltered(60, "px.frame")})
 }
 
 // closeBusy: the client is closed while one of its own writers (the response of a client-side handler
